@@ -3,7 +3,7 @@ M8 (part 4) — the PEG rules reachable from `exp` (grammar.pest), read over tok
 `parse_exp` / `parse_exp_leaf` (parser/rules_parser/exp_parser.rs) incl. the left fold of
 `implicit_mul`.  Ordered choice and the possessive `?`/`*` of PEG are kept: a failing alternative
 falls through to the next one, a failing repetition step backtracks to before its operator.
-Errors raised while the AST is built (`parse::<i64>` overflow, `True`) are merged with PEG failure:
+Errors raised while the AST is built (`parse::<i64>` overflow) are merged with PEG failure:
 both make `RoocParser::parse` return `Err`.  Import-free.
 -/
 import Rooc.Gen.Grammar
@@ -47,15 +47,6 @@ def isKeyword (w : String) : Bool := Gen.keywords.contains w
 without inner underscore: all letters. -/
 def isFunctionName (w : String) : Bool := !w.toList.isEmpty && w.toList.all isLetter
 
-def lowerChar (c : Char) : Char := if decide ('A' ≤ c) && decide (c ≤ 'Z') then Char.ofNat (c.toNat + 32) else c
-
-/-- `boolean = @{ ^"true" | ^"false" }` at the start of a word: (matched text, remainder). -/
-def boolPrefix (w : String) : Option (String × String) :=
-  let cs := w.toList
-  if (cs.take 4).map lowerChar == ['t', 'r', 'u', 'e'] then some (String.ofList (cs.take 4), String.ofList (cs.drop 4))
-  else if (cs.take 5).map lowerChar == ['f', 'a', 'l', 's', 'e'] then some (String.ofList (cs.take 5), String.ofList (cs.drop 5))
-  else none
-
 def digitsToNat (cs : List Char) : Nat := cs.foldl (fun n c => 10 * n + (c.toNat - '0'.toNat)) 0
 
 def i64Max : Nat := 9223372036854775807
@@ -65,15 +56,16 @@ def intLeaf (s : String) : Option PExp :=
   let n := digitsToNat s.toList
   if n ≤ i64Max then some (.int n) else none
 
-/-- `primitive` (boolean) then `variable`, on a word that is not a function call. -/
+/-- `primitive` (boolean) then `variable`, on a word that is not a function call.
+`boolean = @{ ("true" | "false") ~ !(LETTER | NUMBER | "_") }`: the word is a maximal run, so the boundary
+look-ahead holds iff the whole word is one of the listed spellings. -/
 def wordLeaf (w : String) (rest : List Tok) : PRes (PExp × List Tok) :=
-  match boolPrefix w with
-  | some (b, rem) =>
+  if Gen.booleanWords.contains w then
     -- parse_primitive: `"true" => Boolean(true)`, `"false" => Boolean(false)`, anything else is an error
-    if b == "true" then .ok (.bool true, if rem == "" then rest else .word rem :: rest)
-    else if b == "false" then .ok (.bool false, if rem == "" then rest else .word rem :: rest)
+    if w == "true" then .ok (.bool true, rest)
+    else if w == "false" then .ok (.bool false, rest)
     else .error .reject
-  | none => if isKeyword w then .error .reject else .ok (.var w, rest)
+  else if isKeyword w then .error .reject else .ok (.var w, rest)
 
 /-- `variable?` at the end of `implicit_mul` -/
 def optVariable : List Tok → Option PExp × List Tok
